@@ -308,6 +308,17 @@ func runC13Case(c *c13Case) (res c13Res) {
 	case "server-fail":
 		callErr = sc.FailSession(tctx, &lime.Reason{Code: 42, Description: "scripted"})
 		wantState = lime.SessionStateFailed
+	case "server-finish-expired", "server-fail-expired":
+		// the terminal envelope cannot be sent (the context of the call is over): the session is
+		// over all the same, and the connection released
+		ectx, ecancel := context.WithCancel(context.Background())
+		ecancel()
+		if c.Initiator == "server-finish-expired" {
+			_ = sc.FinishSession(ectx)
+		} else {
+			_ = sc.FailSession(ectx, &lime.Reason{Code: 42, Description: "scripted"})
+			wantState = lime.SessionStateFailed
+		}
 	case "client-close", "client-close-at-once":
 		callErr = client.Close()
 	case "server-close":
@@ -317,7 +328,12 @@ func runC13Case(c *c13Case) (res c13Res) {
 	atomic.StoreInt32(&stop, 1)
 	if callErr != nil {
 		res.CallErr = callErr.Error()
-		if c.Initiator == "server-close" {
+		if strings.HasPrefix(c.Initiator, "server-f") && (strings.Contains(callErr.Error(), "not open") || strings.Contains(callErr.Error(), "closed network connection")) {
+			// the party that stops serving the session closed the connection a moment before the
+			// terminating call did: the call reports that its own close found it closed; what the
+			// statement asks of the call is checked below (state, connection, peer released)
+			res.Notes = append(res.Notes, c.Initiator+" returned: "+callErr.Error())
+		} else if c.Initiator == "server-close" {
 			// Server.Close reports what its listeners report on closing (a WebSocket listener closes
 			// its socket twice and says so); the statement makes no claim about that value
 			res.Notes = append(res.Notes, "Server.Close returned: "+callErr.Error())
@@ -334,7 +350,7 @@ func runC13Case(c *c13Case) (res c13Res) {
 		if st := cc.State(); st != lime.SessionStateFinished {
 			problem("client FinishSession returned and the client's state is %v", st)
 		}
-	case "server-finish", "server-fail":
+	case "server-finish", "server-fail", "server-finish-expired", "server-fail-expired":
 		if sc.Established() {
 			problem("%s returned and the server channel still reports established", c.Initiator)
 		}
@@ -343,13 +359,16 @@ func runC13Case(c *c13Case) (res c13Res) {
 		}
 	}
 	// ---- the peer observes the terminal envelope and moves to the terminal state; its streams are closed
+	expired := strings.HasSuffix(c.Initiator, "-expired")
 	if !highLevel && c.Initiator != "client-finish" {
 		select {
 		case <-cc.RcvDone():
 		case <-time.After(9 * time.Second):
 			problem("the client's receiver-done signal was not closed within 9 s after %s", c.Initiator)
 		}
-		if st := cc.State(); st != wantState {
+		// (when the terminal envelope could not be sent, or lost the race with the cancelled context,
+		// the client only sees the connection end)
+		if st := cc.State(); st != wantState && !expired {
 			problem("after %s the client's state is %v, want %v", c.Initiator, st, wantState)
 		}
 	}
@@ -400,7 +419,7 @@ func runC13Case(c *c13Case) (res c13Res) {
 			problem("the client's transport is still connected after its channel was closed")
 		}
 	}
-	if c.Initiator != "server-close" && c.Initiator != "server-finish" && c.Initiator != "server-fail" {
+	if c.Initiator != "server-close" && !strings.HasPrefix(c.Initiator, "server-f") {
 		deadline := time.Now().Add(9 * time.Second)
 		for atomic.LoadInt32(&finished) == 0 && time.Now().Before(deadline) {
 			time.Sleep(200 * time.Microsecond)
@@ -470,10 +489,10 @@ func init() {
 			}
 		} else {
 			trs := []string{"inproc", "tcp", "ws"}
-			inits := []string{"client-finish", "server-finish", "server-fail", "client-close", "server-close", "client-close-at-once"}
-			n := e.N(108, 2160)
+			inits := []string{"client-finish", "server-finish", "server-fail", "client-close", "server-close", "client-close-at-once", "server-finish-expired", "server-fail-expired"}
+			n := e.N(120, 2400)
 			for i := 0; i < n; i++ {
-				c := &c13Case{Transport: trs[i%3], Initiator: inits[(i/3)%6], Buf: []int{0, 1, 64}[e.Rng.Intn(3)],
+				c := &c13Case{Transport: trs[i%3], Initiator: inits[(i/3)%8], Buf: []int{0, 1, 64}[e.Rng.Intn(3)],
 					CliSenders: e.Rng.Intn(5), SrvSenders: e.Rng.Intn(5), DelayUs: []int{0, 50, 300, 2000}[e.Rng.Intn(4)], Seed: e.Seed*100000 + int64(i)}
 				cases = append(cases, c)
 			}
